@@ -12,7 +12,8 @@ CHECKER = "lake build KalignModel.Props.C05All && lake env lean KalignModel/Audi
 def theorems():
     out = []
     for f in ("C05.theorems", "C05Pipeline.theorems", "SoftFloat.theorems", "C05PipelineSoft.theorems", "C05PipelineSoftL.theorems",
-              "C05PipelineSoftFinal.theorems", "C05PipelineSoft2.theorems", "C05PipelineSoft2Ex.theorems"):
+              "C05PipelineSoftFinal.theorems", "C05PipelineSoft2.theorems", "C05PipelineSoft2Ex.theorems",
+              "C05WholeProgram.theorems", "C05WholeProgramEx.theorems"):
         p = os.path.join(C.LEAN, "KalignModel", "Props", f)
         if os.path.exists(p):
             out += [l.strip() for l in open(p) if l.strip() and not l.startswith("#")]
@@ -154,6 +155,9 @@ def run(ctx):
     if os.path.exists(ty):
         tl = [l.strip() for l in open(ty) if l.strip()]
         diffs += C.unit_correspondence(ctx, kvh, tl[:: (12 if ctx.quick else 1)] + C.gen_ops("gen_bpm.py", ctx.seed, "--soft", "--trees", 6 if ctx.quick else 100, "--matrices", 10 if ctx.quick else 200), "softtree")
+    # the whole program on SoftF32 (the model kalignFileSoft2_never_faults is about): files in, file out
+    fl2 = C.gen_ops("gen_pipefile.py", 5 * ctx.seed + 1, 1, "kalign_file_soft2")
+    sl += fl2[::5] if ctx.quick else fl2
     d3 = C.correspond(kvh, sl, chunks=C.NCPU, timeout=3000)
     ctx.count("unit_ops_pipeline_softfloat", len(sl))
     ctx.evaluations += len(sl)
